@@ -7,6 +7,7 @@ comparators perform, and the verdict loop over the array `sortAndDedup` left beh
 -/
 import SpdxVerif.Model.GoSlices
 import SpdxVerif.Model.GoHeap
+import SpdxVerif.Model.GoMatch
 namespace Spdx.G
 
 /-- `stringsToNodes`: the loop returns at the first entry that does not parse or is an expression -/
@@ -41,7 +42,8 @@ def satisfiesG (grow : Nat → Nat → Nat) (e : Bytes) (allowed : List Bytes) :
       (fillG A.length (List.replicate A.length none) A 0).bind fun _ =>
       (sortAndDedupG A).bind fun sd =>          -- `sortAndDedup(allowedNodes)`: result discarded, the array `sd.1` is used
       (expandG grow n).bind fun ex =>
-      .ok (.ok (ex.any (fun part => isCompatible part sd.1)))
+      (anyG (fun part => isCompatibleG part sd.1) ex).bind fun v =>   -- the verdict loop, matching with pointers (part 7)
+      .ok (.ok v)
 
 /-- `ExtractLicenses` -/
 def extractFullG (e : Bytes) : Out (Option (List Bytes)) :=
